@@ -65,15 +65,30 @@ def correspondence(ctx):
         failures.append(dict(layer="correspondence", what=f"decoder model and real decoder disagree on a mutated frame ({c['feats']}): go={cls(c['go'])} model={cls(c.get('model'))}",
                              detail=json.dumps(dict(case=c["line"][:600], go=c["go"][:300], model=str(c.get("model"))[:300])), input=None))
     ev, dn, hist = L.coverage_counts(cases, trivial_feats=("",))
-    return dict(evaluations=ev, distinct_nontrivial=dn, hist=hist,
+    # the one response the Transport reads outside ReadResponse: the raw (SaslHandshake v0) SASL
+    # authentication response (checks/c18.py raw_sasl_alloc_cases; defect F28 was found there)
+    notes = []
+    raw_extra = {}
+    try:
+        import importlib
+        rc = importlib.import_module("checks.c18").raw_sasl_alloc_cases(ctx)
+        ev += rc.get("evaluations", 0)
+        dn += rc.get("distinct_nontrivial", 0)
+        hist.update(rc.get("hist", {}))
+        failures += rc.get("failures", [])
+        raw_extra = dict(raw_sasl_alloc_evaluations=rc.get("evaluations", 0), raw_sasl_worst=rc.get("worst"))
+    except (ModuleNotFoundError, AttributeError):
+        notes.append("checks/c18.py has no raw_sasl_alloc_cases yet")
+    return dict(evaluations=ev, distinct_nontrivial=dn, hist=hist, notes=notes,
                 rule="for every response schema without record sets: well-formed frames from the real encoder, then ONE length/count field at a time "
                      "(located by the independent layout encoder) replaced by each of {-1, 0, 1, rest, rest+1, max, min} (int16/int32), "
                      "{0,1,2,rest+1,rest+2,2^31,2^32,2^62,2^63,2^63+1,2^63+2,2^64-1, over-long 11/12/13-byte varints} (compact lengths, tag counts and sizes), "
                      "the frame size in {-1,0,3,len-5,len-3,2^31-1,-2^31}; plus frame-size AND count both huge; plus fetch responses with real v1/v2 record sets "
                      "mutated at every offset of the record-set region (32-bit values and single bytes) and cut; each decoded by the real ReadResponse in a child under ulimit -v; "
-                     "non-trivial = any mutation; distinct by frame bytes",
+                     "non-trivial = any mutation; distinct by frame bytes.  Plus the raw SASL authentication response through the Transport (announced lengths exact / one more / 10^4..2^31-1 / negative "
+                     "x payload sent x close|silence): no panic, no out-of-memory, TotalAlloc <= 1 MiB + 4 x bytes received",
                 samples=[c["line"][:200] + " | " + c["go"][:60] + " | " + c["feats"] for c in cases[:3] + cases[len(cases)//2:len(cases)//2+3]],
-                failures=failures, extra=dict(outcome_classes=dict(classes), child_restarts=restarts, residual_declared_size_cases=residual))
+                failures=failures, extra=dict(outcome_classes=dict(classes), child_restarts=restarts, residual_declared_size_cases=residual, **raw_extra))
 
 
 def search(ctx, violations):
